@@ -366,6 +366,12 @@ def run(case, ctx):
         f'{c.id}:{c.imp}' for c in deck.cells) + '|' + str(deck.imp_cards))
     run_ = convert_deck(case, ctx, out, deck)
     if not run_.ok:
+        if run_.exc_type == 'ValueError' and 'max()' in run_.exc_msg and \
+                all(deck.importance_zero(c) for c in deck.cells if not c.u):
+            # every level-0 cell has zero importance: there is nothing to
+            # convert and the converter stops for lack of volumes
+            out.skipped = 'all-cells-zero-importance'
+            return out
         crash_violation(out, run_)
         return out
     t4, _probs = ctx.parse(run_)
